@@ -219,7 +219,10 @@ def size_of_sizeexpr(repo, e, ci):
                 return Sym(val)
         except (Unknown, Raised):
             pass
-    raise AnalysisError(f"cannot size {unparse(e)} in {ci.qualname}")
+    # a size the analysis cannot relate to anything else: it is kept as an
+    # opaque symbol, which no other size is provably >= (the obligation
+    # that needs it stays undischarged)
+    return Sym("?" + unparse(e))
 
 
 # ----------------------------------------------------------------- R10.2
@@ -253,7 +256,9 @@ def buffer_size(repo, call, e, ci, func, role):
         for a in alts:
             s = str_const(a)
             if s is None:
-                raise AnalysisError(f"pack format not literal: {unparse(fe)}")
+                # a format taken from a declaration: its size is only known
+                # as calcsize(<that format>)
+                return Sym(f"calcsize({unparse(a)})")
             fmts.add(calcsize(s))
         if len(fmts) != 1:
             return Sym(min(fmts))
@@ -296,8 +301,9 @@ def buffer_size(repo, call, e, ci, func, role):
         ints = [v for v in vals.values() if isinstance(v.v, int)]
         if len(ints) == len(vals):
             return Sym(min(v.v for v in ints))
-        raise AnalysisError(f"local {e.id} has buffers of different sizes: "
-                            f"{sorted(vals)}")
+        # several definitions, not all of them numbers: the buffer is only
+        # as large as the one that cannot be bounded
+        return Sym("min(" + ", ".join(sorted(vals)) + ")")
     # get_next_key(...) result: as large as its second argument says
     if isinstance(e, ast.Call) and resolve_callee(repo, e) == \
             BPF + "get_next_key":
@@ -458,6 +464,47 @@ def percpu(chk, repo):
                f"({sorted(x for x in bad)}) can be smaller"
                if not (good and not bad) else
                "reads /sys/devices/system/cpu/possible")
+        # the mask is parsed to the number of CPUs it names: fold the
+        # expression on masks of every shape the kernel prints
+        if good and not bad:
+            class _Sub(ast.NodeTransformer):
+                n = 0
+
+                def visit_Call(self, node):
+                    self.generic_visit(node)
+                    if isinstance(node.func, ast.Attribute) and \
+                            node.func.attr == "read" and not node.args:
+                        self.n += 1
+                        return ast.copy_location(
+                            ast.Name("__mask", ast.Load()), node)
+                    return node
+            sub = _Sub()
+            expr = sub.visit(clone(val))
+            if sub.n == 1:
+                ev2 = Evaluator(repo, m._module)
+                wrong = []
+                for mask in ("0", "0-3", "0-7\n", "0,2-5", "0-1,3,5-6",
+                             "0,2,4,6", "1-2,8-11,13\n", "0-127"):
+                    want = 0
+                    for part in mask.strip().split(","):
+                        a, _, b = part.partition("-")
+                        want += int(b or a) - int(a) + 1
+                    try:
+                        got = ev2.eval(expr, {"__mask": mask})
+                    except (Unknown, Raised) as e:
+                        raise AnalysisError(
+                            f"{c.qualname}.{m.name}: cannot fold the CPU "
+                            f"mask parser on {mask!r}: {e}")
+                    if got != want:
+                        wrong.append(f"{mask.strip()!r} -> {got} (has "
+                                     f"{want})")
+                chk.ob(rule, c.qualname + "." + m.name, "the possible-CPU "
+                       "mask is parsed to the number of CPUs it names "
+                       "(8 masks)", not wrong, stmt,
+                       "; ".join(wrong[:4]) + ": the kernel copies one "
+                       "value per possible CPU into a buffer sized by this "
+                       "count" if wrong else "ranges and single ids, "
+                       "separated by commas")
     # (c) the reader's stride and bound use the same size and count
     pv = repo.cls("ebpfcat.arraymap.PerCPUVar")
     gi = pv.methods.get("__getitem__")
